@@ -14,12 +14,14 @@ import (
 
 func init() {
 	h.Register(&h.Prop{ID: "C03", Gen: genC03, Exec: withPrim(map[string]h.ExecFn{
-		"tlb.enc":   exTlbEnc,
-		"tlb.dec":   exTlbDec,
-		"go.rt":     goRoundTrip,
-		"go.redec":  goReDecode,
-		"go.stable": goStable,
-		"go.bigint": goBigInt,
+		"tlb.enc":      exTlbEnc,
+		"tlb.parsetag": exParseTag,
+		"tlb.fieldtag": exFieldTag,
+		"tlb.dec":      exTlbDec,
+		"go.rt":        goRoundTrip,
+		"go.redec":     goReDecode,
+		"go.stable":    goStable,
+		"go.bigint":    goBigInt,
 	})})
 }
 
@@ -51,13 +53,22 @@ func mutateCell(g *h.G, c *boc.Cell) []*boc.Cell {
 
 func genC03(g *h.G) {
 	tlbInit()
-	perType := g.Scale(8, 150)
+	perType := g.Scale(8, 400)
 	gc := tlbx.NewGenCtx(g.Rng, tlbU)
 	goc := tlbx.NewGenCtx(g.Rng, tlbU)
 	goc.Cov = gc.Cov
 	totalCtors := map[string]bool{}
 	for _, tt := range tlbTypes {
 		g.Count("types_" + tt.Class)
+		if tt.Class != "model" {
+			why := strings.Join(tt.Why, ";")
+			if len(why) > 120 {
+				why = why[:120]
+			}
+			g.Count("not_fully_modelled:" + tt.Name + ":" + tt.Class + ":" + strings.ReplaceAll(why, " ", "_"))
+		} else if r, pinned := tlbx.NonWf[tt.Name]; pinned {
+			g.Count("modelled_but_outside_the_theorem:" + tt.Name + ":" + strings.ReplaceAll(r[:minInt(len(r), 100)], " ", "_"))
+		}
 		tlbU.Walk(tt.D, map[string]bool{}, func(*tlbx.Desc) {})
 		switch tt.Class {
 		case "unsupported", "not-tlb":
@@ -142,6 +153,7 @@ func genC03(g *h.G) {
 		}
 	}
 	genBigInt(g)
+	genTags(g)
 	genReal(g)
 }
 
